@@ -9,6 +9,7 @@ From Dimod Require Model.FixCopyGen Proofs.FixCopyGenFacts.
 From Dimod Require Model.VartypeOps Model.FlipMarks Proofs.FlipMarksFacts.
 From Dimod Require Gen.Gen_HPolyPy Proofs.HPolyPyGenFacts.
 From Dimod Require Gen.Gen_LoopShapes.
+From Dimod Require Proofs.FlipMarksAgree.
 Import ListNotations.
 Open Scope Qc_scope.
 
@@ -391,6 +392,70 @@ Theorem C03_poly_fix_loop_uses_source_constants :
   fold_left (HPolyPy.fix_step_py fixed) p ([], Gen_HPolyPy.gen_fix_offset_init).
 Proof. exact HPolyPyGenFacts.fix_loop_py_uses_source_constants. Qed.
 Print Assumptions C03_poly_fix_loop_uses_source_constants.
+
+
+(* the two paths leave structurally identical expressions (same variables_, same linear vector, same number of stored
+   interactions); hence is_onehot agrees, the relation between the two discreteness reports holds without side condition,
+   and for genuine discrete constraints with in-domain assignments both paths report the SAME discreteness *)
+Theorem C03_fix_paths_same_structure :
+  forall (n : nat) (vt' : nat -> vartype) (fs : list (nat * Qc)) (src : Expr.mexpr),
+  ExprFacts.ExprInv n src ->
+  FixCopyFacts.FixOk n fs ->
+  FixCopyFacts.NoFoldLoops n vt' fs src ->
+  let c :=
+    FixCopy.fix_variables_expr vt' src (FixCopy.old_to_new_of n (map fst fs))
+      (FixCopy.assignments_of n fs) in
+  let i := FixCopyFacts.inplace_expr (FixCopy.shift_fixings fs) src in
+  Expr.e_vars c = FlipMarksAgree.kept_vars (map fst fs) (Expr.e_vars src) /\
+  Expr.e_vars i = FlipMarksAgree.kept_vars (map fst fs) (Expr.e_vars src) /\
+  Expr.e_lin c = Expr.e_lin i /\
+  Expr.e_off c = Expr.e_off i /\ length (Expr.e_quad c) = length (Expr.e_quad i).
+Proof. exact FlipMarksAgree.fix_paths_same_structure. Qed.
+Print Assumptions C03_fix_paths_same_structure.
+
+Theorem C03_onehot_agree_holds_noloops :
+  forall (fs : list (nat * Qc)) (q : Expr.mcqm),
+  ExprFacts.CqmInv q ->
+  FixCopyFacts.FixOk (length (Expr.m_info q)) fs ->
+  (forall k : Expr.mcon, In k (Expr.m_cons q) -> FlipMarksAgree.NoStoredLoops q (Expr.mc_e k)) ->
+  FlipMarksFacts.onehot_agree fs q = true.
+Proof. exact FlipMarksAgree.onehot_agree_holds_noloops. Qed.
+Print Assumptions C03_onehot_agree_holds_noloops.
+
+Theorem C03_discrete_view_inplace_vs_copy_noloops :
+  forall (fs : list (nat * Qc)) (q : Expr.mcqm),
+  ExprFacts.CqmInv q ->
+  FixCopyFacts.FixOk (length (Expr.m_info q)) fs ->
+  FlipMarksAgree.MarkedNoLoops q ->
+  FlipMarks.discrete_view (FlipMarks.cy_cqm_fix_variables_inplace fs q) =
+  map (fun p : Expr.mcon * bool => snd p && negb (FlipMarks.mark_hit q fs (fst p)))
+    (combine (Expr.m_cons q) (FlipMarks.discrete_view (FixCopy.cqm_fix_variables_copy fs q))).
+Proof. exact FlipMarksAgree.discrete_view_inplace_vs_copy_noloops. Qed.
+Print Assumptions C03_discrete_view_inplace_vs_copy_noloops.
+
+Theorem C03_discrete_inplace_implies_copy_noloops :
+  forall (fs : list (nat * Qc)) (q : Expr.mcqm) (j : nat),
+  ExprFacts.CqmInv q ->
+  FixCopyFacts.FixOk (length (Expr.m_info q)) fs ->
+  FlipMarksAgree.MarkedNoLoops q ->
+  nth j (FlipMarks.discrete_view (FlipMarks.cy_cqm_fix_variables_inplace fs q)) false = true ->
+  nth j (FlipMarks.discrete_view (FixCopy.cqm_fix_variables_copy fs q)) false = true.
+Proof. exact FlipMarksAgree.discrete_inplace_implies_copy_noloops. Qed.
+Print Assumptions C03_discrete_inplace_implies_copy_noloops.
+
+Theorem C03_discrete_paths_agree_in_domain :
+  forall (fs : list (nat * Qc)) (q : Expr.mcqm),
+  ExprFacts.CqmInv q ->
+  FixCopyFacts.FixOk (length (Expr.m_info q)) fs ->
+  (forall k : Expr.mcon,
+   In k (Expr.m_cons q) ->
+   Expr.mc_mark k = true ->
+   VartypeOps.vo_is_onehot (VartypeOps.cq_vartype q) k = true /\ Expr.mc_rhs k <> Q2Qc 0) ->
+  (forall (v : nat) (a : Qc), In (v, a) fs -> VartypeOps.cq_vartype q v = BINARY -> a = Q2Qc 0 \/ a = 1) ->
+  FlipMarks.discrete_view (FlipMarks.cy_cqm_fix_variables_inplace fs q) =
+  FlipMarks.discrete_view (FixCopy.cqm_fix_variables_copy fs q).
+Proof. exact FlipMarksAgree.discrete_paths_agree_in_domain. Qed.
+Print Assumptions C03_discrete_paths_agree_in_domain.
 
 
 (* non-vacuity: 3 i^2 + 2 i + 5 i j + j with i := 2 is 49 at j = 3 *)
